@@ -581,6 +581,12 @@ func scenarios(thorough bool) []Scenario {
 		nbtValueScenario(2),
 		connScenario(2, -1, true),
 		connScenario(2, 32, true),
+		botConnScenario("linked", 0),
+		botConnScenario("linked", 2),
+	}
+	if !sched.Controlled {
+		// ChannelQueue.Pull blocks on a real channel (outside scheduler control): free-running pass only
+		s = append(s, botConnScenario("chan", 0), botConnScenario("chan", 2))
 	}
 	for _, th := range marshalThresholds {
 		s = append(s, marshalScenario(2, th))
